@@ -54,6 +54,12 @@ def advanceEx (sel : Sel) (d : Int) : Nat → List Cursor → List Cursor
     | none => ex
     | some (e, others) => if e.dt < d then advanceEx sel d fuel (advanceTop e others) else ex
 
+/-- line 1417: `if not exlist or ritem != exlist[0]` -/
+def emitTest (sel : Sel) (ex : List Cursor) (d : Int) : Bool :=
+  match sel ex with
+  | none => true
+  | some (e, _) => decide (d ≠ e.dt)
+
 /-- the main loop, lines 1409-1423; `last` is `lastdt` -/
 def loop (sel : Sel) : Nat → List Cursor → List Cursor → Option Int → List Int
   | 0, _, _, _ => []
@@ -63,10 +69,7 @@ def loop (sel : Sel) : Nat → List Cursor → List Cursor → Option Int → Li
     | some (ritem, others) =>
       if last ≠ some ritem.dt then                      -- `if not lastdt or lastdt != ritem.dt`
         let ex' := advanceEx sel ritem.dt ((ex.map (fun c => c.elems.length)).sum + 1) ex
-        let emit := match sel ex' with
-          | none => true                                 -- `if not exlist or ritem != exlist[0]`
-          | some (e, _) => decide (ritem.dt ≠ e.dt)
-        (if emit then [ritem.dt] else []) ++ loop sel fuel (advanceTop ritem others) ex' (some ritem.dt)
+        (if emitTest sel ex' ritem.dt then [ritem.dt] else []) ++ loop sel fuel (advanceTop ritem others) ex' (some ritem.dt)
       else loop sel fuel (advanceTop ritem others) ex last
 
 def totalLen (l : List (List Int)) : Nat := (l.map List.length).sum
